@@ -74,6 +74,10 @@ def gen(stream, rng, i, cfg):
     forms, gens = [], []
     for _ in range(FORMULAS_PER_SCENARIO):
         f = formgen.g3_tree(rng, env)
+        if stream == 'tree' and rng.random() < 0.04:
+            forms.append(formgen.g7_long(rng, env))
+            gens.append('G7')
+            continue
         if rng.random() < (0.3 if stream == 'tree' else 0.1):
             forms.append(formgen.g4_damage(rng, f))
             gens.append('G4')
@@ -212,7 +216,7 @@ def shrink_candidates(sc):
 def describe():
     return {
         'rule': 'one evaluation = one Parser.parse call under the step clock on a scripted host; generators G1 unicode, '
-                'G2 token soup, G3 well-formed trees, G4 damaged trees, G5 function x arity(0-4) x 36-entry pool walked by a '
+                'G2 token soup, G3 well-formed trees, G4 damaged trees, G7 long/deep inputs (chains of 1500 terms, 400-deep parentheses, 4500-char strings), G5 function x arity(0-4) x 36-entry pool walked by a '
                 'seeded affine permutation (no repeats), G6 trees over a host whose callbacks raise/return hostile values; '
                 'distinct = distinct (formula text, host spec) by blake2b digest; non-trivial = the evaluation reached at least '
                 'one reference or function-call site (a call_* entry point of hotxlfp/parser.py was executed)',
